@@ -4,6 +4,7 @@ import DW.Props.C18
 import DW.Props.C06
 import DW.Lemmas.Obl
 import DW.Lemmas.Typed
+import DW.Lemmas.Preserve
 import DW.Lemmas.DefaultPos
 import DW.Props.C16
 
@@ -32,6 +33,11 @@ rustc's type checker is outside the model; what *is* proved about the model:
   applied to field-less enums, `return None` only occurs in `partial_cmp` — for every item that validation accepts,
   every attribute, trait and configuration.  Together with `C02_obligations` (which trait bounds the calls need) this
   is the model's account of "the expansion type-checks".
+* `C02_preservation`: the type system is *sound for the evaluator* on the generated methods: whatever a generated
+  method returns for well-formed operands (normally or through an early `return`) is a value of its signature's return
+  type — `bool` for `eq`, `Option<Ordering>` for `partial_cmp`, a well-formed value of the item for `clone` / `default`,
+  … (`eval_preserves`, `DW/Lemmas/Preserve.lean`: type preservation for every expression of the fragment, by mutual
+  structural induction; `applyFn_preserves` and `matchPat_preserves` relate library calls and patterns).
 Whether rustc accepts the expansion is checked by correspondence B (every
 accepted, well-posed generated item must compile in each configuration).
 -/
@@ -196,6 +202,98 @@ theorem C02_well_typed (c : Cfg) (raw : RawItem) (hraw : RawOK raw) (inp : Input
   · simp only [List.mem_singleton] at him
     subst him
     exact hty m hm
+
+theorem lookup_mem {β γ} [BEq β] [LawfulBEq β] (l : List (β × γ)) (x : β) (t : γ) (h : l.lookup x = some t) :
+    (x, t) ∈ l := by
+  induction l with
+  | nil => simp at h
+  | cons p l ih =>
+    obtain ⟨y, ty⟩ := p
+    simp only [List.lookup_cons] at h
+    cases hxy : x == y
+    · simp only [hxy] at h; exact List.mem_cons_of_mem _ (ih h)
+    · simp only [hxy, Option.some.injEq] at h
+      have := eq_of_beq hxy
+      subst this h; simp
+
+/-- The environment `runMethod` starts from has the types of the signature's parameters. -/
+theorem envOK_params {α} (it : Item) (sg : Sig) (a : Val α) (other : Option (Val α)) (ha : WfVal it a)
+    (ho : (sg = .eq ∨ sg = .partialCmp ∨ sg = .cmp) → ∃ o, other = some o ∧ WfVal it o) :
+    EnvOK it ([(Var.self_, a), (Var.f, Val.opaque), (Var.state, Val.opaque)] ++
+      (match other with
+        | some o => [(Var.other, o)]
+        | none => [])) sg.params := by
+  intro x t hx
+  have hm := lookup_mem _ x t hx
+  have hself : ∀ tl : Env α, ([(Var.self_, a), (Var.f, Val.opaque), (Var.state, Val.opaque)] ++ tl).lookup Var.self_ = some a := by
+    intro tl; simp [List.lookup_cons]
+  have e1 : (Var.f == Var.self_) = false := by decide
+  have e2 : (Var.state == Var.self_) = false := by decide
+  have e3 : (Var.state == Var.f) = false := by decide
+  have e4 : (Var.other == Var.self_) = false := by decide
+  have e5 : (Var.other == Var.f) = false := by decide
+  have e6 : (Var.other == Var.state) = false := by decide
+  have hf : ∀ tl : Env α, ([(Var.self_, a), (Var.f, Val.opaque), (Var.state, Val.opaque)] ++ tl).lookup Var.f = some .opaque := by
+    intro tl; simp [List.lookup_cons, e1]
+  have hst : ∀ tl : Env α, ([(Var.self_, a), (Var.f, Val.opaque), (Var.state, Val.opaque)] ++ tl).lookup Var.state = some .opaque := by
+    intro tl; simp [List.lookup_cons, e2, e3]
+  have hoth : ∀ o : Val α, ([(Var.self_, a), (Var.f, Val.opaque), (Var.state, Val.opaque)] ++ [(Var.other, o)]).lookup Var.other = some o := by
+    intro o; simp [List.lookup_cons, e4, e5, e6]
+  by_cases hsg : sg = .eq ∨ sg = .partialCmp ∨ sg = .cmp
+  · obtain ⟨o, rfl, hwo⟩ := ho hsg
+    rcases hsg with rfl | rfl | rfl <;>
+      simp only [Sig.params, List.mem_cons, List.not_mem_nil, or_false, Prod.mk.injEq] at hm <;>
+      rcases hm with ⟨rfl, rfl⟩ | ⟨rfl, rfl⟩ <;>
+      first
+        | exact ⟨a, hself _, by simpa [ValOK] using ha⟩
+        | exact ⟨_, hoth _, by simpa [ValOK] using hwo⟩
+  · cases sg <;> simp only [reduceCtorEq, or_self, or_false, false_or, not_true_eq_false, not_false_eq_true] at hsg <;>
+      simp only [Sig.params, List.mem_cons, List.not_mem_nil, or_false, Prod.mk.injEq] at hm
+    all_goals first
+      | (rcases hm with ⟨rfl, rfl⟩ | ⟨rfl, rfl⟩ <;>
+          first
+            | exact ⟨a, hself _, by simpa [ValOK] using ha⟩
+            | exact ⟨.opaque, hf _, by simp [ValOK]⟩
+            | exact ⟨.opaque, hst _, by simp [ValOK]⟩)
+      | (obtain ⟨rfl, rfl⟩ := hm; exact ⟨a, hself _, by simpa [ValOK] using ha⟩)
+      | exact absurd hm (by simp)
+
+theorem finish_ok {α} {it : Item} {ret ty : Ty} {r : Res α} {v : Val α} {l : Log α}
+    (hres : ResOK it ret ty r) (hfit : ty.fits ret = true) (h : r.finish = .ok (v, l)) : ValOK it v ret := by
+  cases r with
+  | ok b =>
+    obtain ⟨v', l'⟩ := b
+    simp only [Out.finish, Out.ok.injEq, Prod.mk.injEq] at h
+    obtain ⟨rfl, _⟩ := h
+    exact ValOK.of_fits hres hfit
+  | ret v' l' =>
+    simp only [Out.finish, Out.ok.injEq, Prod.mk.injEq] at h
+    obtain ⟨rfl, _⟩ := h
+    exact hres
+  | ub => simp [Out.finish] at h
+  | panic => simp [Out.finish] at h
+  | stuck => simp [Out.finish] at h
+
+/-- **Type preservation for the generated methods**: for every validated item, every generated method and all
+well-formed operands, the value the method returns — normally or through an early `return` — has the return type of the
+method's signature.  (`eval_preserves` is the general statement for every well-typed expression of the fragment.) -/
+theorem C02_preservation {α} (c : Cfg) (raw : RawItem) (hraw : RawOK raw) (inp : Input)
+    (h : Input.fromInput c raw = .ok inp) (dw : DeriveWhere) (hdw : dw ∈ inp.deriveWheres)
+    (t : DeriveTrait) (ht : t ∈ dw.traits) (cx : SemCtx α) (himpl : ImplsOK inp.item cx) :
+    ∀ im ∈ generateImpl c inp dw t, ∀ m ∈ im.methods, ∀ (a : Val α) (other : Option (Val α)), WfVal inp.item a →
+      ((m.sig = .eq ∨ m.sig = .partialCmp ∨ m.sig = .cmp) → ∃ o, other = some o ∧ WfVal inp.item o) →
+      ∀ v l, runMethod cx m.body a other = .ok (v, l) → ValOK inp.item v m.sig.ret := by
+  intro im him m hm a other ha ho v l hrun
+  have hwt := C02_well_typed c raw hraw inp h dw hdw t ht im him m hm
+  have hwf := (Input.fromInput_ok c raw inp h).wf
+  simp only [Method'.wellTyped] at hwt
+  cases hty : m.body.ty ⟨inp.item, m.sig.ret⟩ m.sig.params with
+  | none => simp [hty] at hwt
+  | some ty =>
+    simp only [hty] at hwt
+    have henv := envOK_params inp.item m.sig a other ha ho
+    have hres := eval_preserves cx ⟨inp.item, m.sig.ret⟩ himpl hwf m.body m.sig.params _ [] ty hty henv
+    exact finish_ok hres hwt hrun
 
 /-- The checker rejects what rustc rejects: `Ord::cmp` applied to two *different* fields, a `match` whose arms
 disagree, `return None` inside `cmp`, an `as` cast of an enum with fields, a struct literal that omits a field. -/
